@@ -194,7 +194,7 @@ func plausible(spec string, vs []string) bool {
 func genSpec(rng *rand.Rand, vs []string) string {
 	for try := 0; ; try++ {
 		s := genSpec1(rng, vs)
-		if try >= 8 || plausible(s, vs) || rng.Intn(25) == 0 {
+		if try >= 8 || plausible(s, vs) || rng.Intn(60) == 0 {
 			return s
 		}
 	}
@@ -281,9 +281,11 @@ func versionOfRank(rank map[string]int, k int) string {
 // packages (mostly later in the alphabet, sometimes earlier so that cycles
 // arise) and each of its versions requires most of them, each with its own
 // specifier, so that choosing a version of one package constrains the choice
-// for another: at most one requirement per (version, package), none on the
-// package itself. Specifiers use every operator, markers come from the
-// active template table, extras x / y are requested on some requirements.
+// for another: at most one requirement per (version, package). Specifiers
+// use every operator, markers come from the active template table, extras
+// x / y are requested on some requirements. About half of the packages
+// carry one of the idioms of addExtraIdioms (a requirement of a package on
+// itself with a further extra, or a dependency that asks back for one).
 // Generation is a function of rng only.
 func Generate(rng *rand.Rand) *uni.Universe {
 	u := &uni.Universe{Sys: "PyPI"}
@@ -336,7 +338,7 @@ func Generate(rng *rand.Rand) *uni.Universe {
 		// package caps the same target.
 		style := make([]int, len(targets))
 		for i := range style {
-			style[i] = []int{0, 0, 0, 1, 1, 2}[rng.Intn(6)]
+			style[i] = []int{0, 0, 0, 0, 1, 1, 1, 1, 1, 2}[rng.Intn(10)]
 		}
 		order := sortedVersions(vers[p])
 		for _, v := range vers[p] {
@@ -382,5 +384,120 @@ func Generate(rng *rand.Rand) *uni.Universe {
 			u.Versions = append(u.Versions, ver)
 		}
 	}
+	addExtraIdioms(rng, u, pkgs, vers)
 	return u
+}
+
+// addExtraIdioms plants the two ways in which a package that is already
+// pinned is asked for further extras through a cycle, together with a
+// requirement that only those further extras switch on.
+//
+// Umbrella (cycle of length one): versions of p require p itself with extra
+// "in" under the marker extra == "out" (as in `all = pkg[x]`), one of their
+// other requirements is guarded by extra == "in", and those who require p
+// tend to ask for "out".
+//
+// Echo (cycle of length two): versions of a package q that p requires
+// require p back with extra "in", and p has a requirement guarded by
+// extra == "in".
+func addExtraIdioms(rng *rand.Rand, u *uni.Universe, pkgs []string, vers map[string][]string) {
+	hasTemplate := func(m string) bool {
+		for _, t := range active {
+			if t.Marker == m {
+				return true
+			}
+		}
+		return false
+	}
+	if !hasTemplate(`extra == "x"`) || !hasTemplate(`extra == "y"`) {
+		return
+	}
+	np := len(pkgs)
+	// guard makes one requirement of v (on another package) depend on extra
+	// in; a new one is added when v has none.
+	guard := func(v *uni.Version, in string) {
+		marker := `extra == "` + in + `"`
+		var other []int
+		for i, q := range v.Reqs {
+			if q.Name != v.Name {
+				other = append(other, i)
+			}
+		}
+		if len(other) > 0 && rng.Intn(3) > 0 {
+			v.Reqs[other[rng.Intn(len(other))]].Environment = marker
+			return
+		}
+		for try := 0; try < 8; try++ {
+			q := pkgs[rng.Intn(np)]
+			dup := q == v.Name
+			for _, r := range v.Reqs {
+				dup = dup || r.Name == q
+			}
+			if !dup {
+				v.Reqs = append(v.Reqs, uni.Req{Name: q, Req: looseSpec(rng, vers[q]), Environment: marker})
+				return
+			}
+		}
+	}
+	setReq := func(v *uni.Version, rq uni.Req) {
+		for i := range v.Reqs {
+			if v.Reqs[i].Name == rq.Name {
+				v.Reqs[i] = rq
+				return
+			}
+		}
+		v.Reqs = append(v.Reqs, rq)
+	}
+	for _, p := range pkgs {
+		switch rng.Intn(10) {
+		case 0, 1: // umbrella
+			out, in := "y", "x"
+			if rng.Intn(3) == 0 {
+				out, in = "x", "y"
+			}
+			for i := range u.Versions {
+				v := &u.Versions[i]
+				if v.Name == p && rng.Intn(4) > 0 {
+					self := uni.Req{Name: p, Req: uni.Pick(rng, "", "", "", "=="+v.Version, ">="+base(v.Version)), Enabled: in, Environment: `extra == "` + out + `"`}
+					if rng.Intn(6) == 0 {
+						self.Environment = "" // requires its own extra unconditionally
+					}
+					setReq(v, self)
+					guard(v, in)
+				}
+				if v.Name != p {
+					for k := range v.Reqs {
+						if v.Reqs[k].Name == p && rng.Intn(2) == 0 {
+							v.Reqs[k].Enabled = out
+						}
+					}
+				}
+			}
+		case 2, 3: // echo
+			var targets []string
+			for _, v := range u.Versions {
+				if v.Name == p {
+					for _, q := range v.Reqs {
+						if q.Name != p {
+							targets = append(targets, q.Name)
+						}
+					}
+				}
+			}
+			if len(targets) == 0 {
+				continue
+			}
+			q := targets[rng.Intn(len(targets))]
+			in := uni.Pick(rng, "x", "x", "y")
+			for i := range u.Versions {
+				v := &u.Versions[i]
+				if v.Name == q && rng.Intn(4) > 0 {
+					setReq(v, uni.Req{Name: p, Req: uni.Pick(rng, "", "", "", looseSpec(rng, vers[p])), Enabled: in})
+				}
+				if v.Name == p && rng.Intn(4) > 0 {
+					guard(v, in)
+				}
+			}
+		}
+	}
 }
